@@ -2,7 +2,7 @@
 # re-run every stored seeded change against the check of its property (and C05-1 against C02); summary in seeded/SUMMARY.txt
 cd /verif
 : > .work/seed_all.log
-ls seeded | grep -E '^C[0-9]+-[0-9]+$' | xargs -P 4 -I{} sh -c '/venv/bin/python tools/seed_run.py {} 2>&1 | grep -E "DETECTED|MISSED|Error|error" | head -2 >> .work/seed_all.log'
+ls seeded | grep -E '^C[0-9]+-[0-9]+$' | xargs -P 6 -I{} sh -c '/venv/bin/python tools/seed_run.py {} 2>&1 | grep -E "DETECTED|MISSED|Error|error" | head -2 >> .work/seed_all.log'
 /venv/bin/python tools/seed_run.py C05-1 C02 2>&1 | grep -E "DETECTED|MISSED" >> .work/seed_all.log
 sort .work/seed_all.log > seeded/SUMMARY.txt
 echo finished >> .work/seed_all.log
